@@ -6,7 +6,8 @@
       field := (f <key> true|false sync|promise|pre|meta none|(e "<msg>") <comp>)
       comp  := null | (s "<json leaf>") | (bad "<msg>") | (list true|false <comp>…) | (obj <field>…)
     → (out "<data json>" ((err "<path json>" "<msg>")…) <idle rounds> <promises created> ((ev start|fulfil "<path json>")…)
-           (spec "<Spec.data>" (<Spec.required errors>) (<Spec.errsF errors>)))
+           (spec "<Spec.data>" (<Spec.required errors>) (<Spec.errsF errors>)
+                 ((null "<path json>" (<candidate errors>))…)))      -- Spec.nulls
 
   combinator level
     (comb <term> (<step>…))
@@ -20,6 +21,7 @@ import ApiFu.Common.Sexp
 import ApiFu.Common.Loop
 import ApiFu.C02.Model
 import ApiFu.C02.Spec
+import ApiFu.C02.Nulls
 
 open ApiFu ApiFu.C02
 
@@ -72,14 +74,15 @@ def eventsOf : List Entry → List Sexp
 def errSexp (e : Err) : Sexp := Sexp.node "err" [.atom (pathText e.path), .atom e.msg]
 
 /-- The reply also carries the reference semantics of the request (`Spec.data`, `Spec.required`,
-    `Spec.errsF`), so that the harness checks the specification itself against the implementation. -/
+    `Spec.errsF`, `Spec.nulls`), so that the harness checks the specification itself against the implementation. -/
 def outSexp (rq : Request) (o : Outcome) : Sexp :=
   Sexp.node "out" [
     .atom (if o.crash then "CRASH" else o.data),
     .list (o.errors.map errSexp),
     Sexp.ofNat o.rounds, Sexp.ofNat o.promises, .list (eventsOf o.log),
     Sexp.node "spec" [.atom (Spec.data rq), .list ((Spec.required rq).map errSexp),
-      .list ((Spec.errsF rq.fields []).map errSexp)]]
+      .list ((Spec.errsF rq.fields []).map errSexp),
+      .list ((Spec.nulls rq).map (fun pc => Sexp.node "null" [.atom (pathText pc.1), .list (pc.2.map errSexp)]))]]
 
 def handleRun (kind : String) (fields : List Sexp) (sched : List Sexp) : Option Sexp := do
   let fields ← fields.mapM parseField
